@@ -1298,3 +1298,50 @@ def run_common(ctx, prop, rep, proof_targets):
             rep.count("sched: Clear for DataInner variant = %s" % ("CLOSE_COUNT reset (F51 repaired)" if fixed else "as found (F51)"))
             S.run_leg(ctx, rep, paths2["h_registry_sched"], fixed)
     return rep
+
+
+def replay_common(ctx, prop, rep, payload, proof_targets):
+    """./check Cxx --replay FILE: re-run just the recorded failing input (a history, or a forced-schedule scenario)."""
+    case = payload.get("case") if isinstance(payload.get("case"), dict) else None
+    if payload.get("kind") != "failing-input" or case is None:
+        return run_common(ctx, prop, rep, proof_targets)
+    text, unrec = shapes_tr.main(ctx.repo, None)
+    gen_if_changed(os.path.join(vlib.COQ, "gen", "Gen_registry.v"), text)
+    rep.tie("translator:Gen_registry", not unrec, "; ".join(unrec[:4]), unrec[:1] or None)
+    rep.proof = vlib.coq_prove(ctx, prop, proof_targets)
+    if "scenario" in case:
+        import props.regsched as S
+        ok2, paths2, log2 = vlib.cargo_build(ctx, "registry", ["h_registry_sched"])
+        if not ok2:
+            rep.tie("build:h_registry_sched", False, vlib.last_error(log2))
+            return rep
+        fixed = shapes_tr.analyse(ctx.repo)[3].get("clear") == 1
+        S.replay_scenario(ctx, rep, paths2["h_registry_sched"], fixed, case["scenario"], case.get("run"))
+        return rep
+    ok, paths, log = vlib.cargo_build(ctx, "registry", ["h_registry"])
+    if not ok:
+        rep.tie("build:h_registry", False, vlib.last_error(log))
+        return rep
+    cases = parse_case_text(case["case"])
+    impl, errs = run_impl(ctx, paths["h_registry"], cases)
+    for c in cases:
+        r = impl.get(c["id"])
+        if r is None:
+            rep.tie("run:h_registry", False, "; ".join(errs[:2]))
+            continue
+        rep.evaluations += 1
+        try:
+            model = run_model(ctx, [c], impl, tag="replay")
+            d = diff_case(c, r, model[c["id"]])
+            rep.tie("correspondence:registry-histories", d is None, "replayed case", d)
+        except Exception as ex:      # noqa: BLE001
+            rep.tie("model-eval", False, str(ex)[:300])
+        o, fails = oracle_failures(c, r, prop)
+        seen = set()
+        for grp, what, finding, k in fails:
+            sig = "".join(ch for ch in what if not ch.isdigit())
+            if sig in seen:
+                continue
+            seen.add(sig)
+            rep.violation(sig.strip(), {"what": what, "at_op": k, "case_id": c["id"], "case": case_text(c)}, finding=finding)
+    return rep
